@@ -418,6 +418,31 @@ def malformed_variants(model, data, rng):
         par = model.parent[cl][c]
         bad[pl][par] = list(bad[pl][par]) + [c]
         out.append(('child-listed-twice', bad))
+    # a child struck from its parent's list (it still exists at its own
+    # level, so it has no parent); for deeper levels also the variant in
+    # which that orphan carries the label of a node properly listed as a
+    # child higher up
+    for li in range(len(h) - 1):
+        pl, cl = h[li], h[li + 1]
+        c = model.nodes[cl][int(rng.integers(len(model.nodes[cl])))]
+        par = model.parent[cl][c]
+        bad = copy.deepcopy(data)
+        bad[pl][par] = [x for x in bad[pl][par] if x != c]
+        out.append(('child-struck-from-parent', bad))
+        if li >= 1:
+            donors = [x for lv in h[1:li + 1] for x in model.nodes[lv]
+                      if x not in model.nodes[cl]]
+            if donors:
+                new = donors[int(rng.integers(len(donors)))]
+                bad = copy.deepcopy(data)
+                bad[pl][par] = [x for x in bad[pl][par] if x != c]
+                bad[cl][new] = bad[cl].pop(c)
+                if li + 2 < len(h):
+                    # (its own children keep pointing at it by position
+                    # in the dict only; they are listed under the new name)
+                    pass
+                out.append(('orphan-sharing-a-label-with-a-listed-node',
+                            bad))
     # a cell in two leaves
     leaves_with = [lf for lf in model.leaves if model.cells[lf]]
     if len(model.leaves) >= 2 and leaves_with:
